@@ -2,6 +2,12 @@
 """Fill the hand-written 'what' / 'needs' fields of seeded/<id>/meta.json and print the DESIGN table."""
 import json, os, glob
 INFO = {
+ "C04-1": ("pinhole lower window limit computed with the upper multiplier (symmetric +-3 sigma)", "pinhole smearing on a grid that has points between -3 and -2.5 sigma (supplied q_calc) AND an intensity with non-zero slope"),
+ "C04-2": ("slit width-only reflected weight abs(qi) - l: the fold of |q+v| is dropped", "width-only slit AND a data point with q < W AND a non-constant intensity"),
+ "C12-1": ("elliptical_cylinder Iqabc loses the square on the axis ratio", "axis_ratio != 1 AND qb != 0 AND q*r_major >= 1"),
+ "C12-2": ("hollow_rectangular_prism Fq integrates phi over half the octant", "b2a_ratio != 1 (the default cube is exact)"),
+ "C20-1": ("convert_model version comparison <= becomes <", "a parameter set saved with exactly model_version (5,0,4) for a model renamed in that table"),
+ "C20-2": ("_get_translation_table range(1, p.length) drops the last vector element", "10-shell onion / core_multi_shell sets (index 10 of a vector parameter named once in the table)"),
  "C01-1": ("kernel_iq.c restores weighted_shell from the form-volume slot on kernel re-entry", "mesh > 100 points (kernel re-entered with pd_start > 0) AND hollow model AND 2-D q"),
  "C01-2": ("make_details counts active distributions only among the max_pd selected ones: the refusal becomes dead code", "6 or more dispersed parameters on a model with more than 5 dispersible parameters"),
  "C07-1": ("ProductKernel sets s_length[0] = 1 after make_details", "effective radius from P (mode >= 1) AND user dispersity left on radius_effective AND an S whose radius is dispersible"),
